@@ -156,6 +156,12 @@ def parse_const(s):
             val = bytes(raw, "utf-8").decode("unicode_escape").encode("latin-1").decode("utf-8") if "\\" in raw else raw
         except Exception:
             val = raw
+        if s.startswith("b"):
+            # exact bytes of a byte-string constant (format templates are not UTF-8): side table keyed by the string value
+            try:
+                BYTES_CONST[val] = bytes(raw, "utf-8").decode("unicode_escape").encode("latin-1") if "\\" in raw else raw.encode("utf-8")
+            except Exception:
+                pass
         return ("const", "bytes" if s.startswith("b") else "str", val, "&str")
     m = re.fullmatch(INT_SUFFIX + r"::(MIN|MAX)", s)
     if m:
@@ -189,6 +195,8 @@ def parse_operand(s):
         return ("const", "fnitem", s, None)      # a bare function item passed as an argument
     raise MirParseError("operand: " + s)
 
+
+BYTES_CONST = {}
 
 BINOPS = {"Add", "Sub", "Mul", "Div", "Rem", "BitAnd", "BitOr", "BitXor", "Shl", "Shr", "Eq", "Ne", "Lt", "Le", "Gt", "Ge",
           "AddWithOverflow", "SubWithOverflow", "MulWithOverflow", "AddUnchecked", "SubUnchecked", "MulUnchecked", "ShlUnchecked", "ShrUnchecked", "Offset", "Cmp"}
